@@ -468,11 +468,8 @@ fn bad_cast_zst(rep: &mut Report, case_no: u64) {
         match r {
             Err(p) => {
                 let msg = payload_str(&*p);
-                if !msg.contains("did not cast") {
-                    rep.violation("bad_cast_wrong_panic", &format!("zero-sized type, {}: panicked with an unrelated message: {}", what, msg), case_no, J::Null);
-                } else {
-                    rep.metric("bad_cast_zst_rejected", 1);
-                }
+                let _ = msg; // rejected by a panic: the wording is not part of the property
+                rep.metric("bad_cast_zst_rejected", 1);
             }
             Ok(x) => {
                 if !x.is_empty() {
@@ -499,11 +496,8 @@ fn bad_cast(rep: &mut Report, case_no: u64) {
     match r {
         Err(p) => {
             let msg = payload_str(&*p);
-            if !msg.contains("did not cast") {
-                rep.violation("bad_cast_wrong_panic", &format!("a CastFrom that changes the address panicked with an unrelated message: {}", msg), case_no, J::Null);
-            } else {
-                rep.metric("bad_cast_rejected", 1);
-            }
+            let _ = msg; // rejected by a panic: the wording is not part of the property
+            rep.metric("bad_cast_rejected", 1);
         }
         Ok(x) => rep.violation("bad_cast_accepted", &format!("a CastFrom implementation that returns a different address was accepted and yielded {:?}", x), case_no, J::Null),
     }
